@@ -46,6 +46,16 @@ def gen_bundles(rng, w, thorough):
         out.append(bundle(ver, b'https://example.com/', None, None, [exch(b'https://example.com/', 200, [(b':pseudo', [b'v'])], b'x')]))
         out.append(bundle(ver, b'https://example.com/', None, None, [exch(b'https://example.com/', 200, [(b'X-A', [b'caf\xc3\xa9'])], b'x')]))
         out.append(bundle(ver, b'https://example.com/', None, None, [exch(b'https://example.com/', 200, [(b'Foo', [b'1']), (b'foo', [b'2'])], b'x')]))
+        # byte-identical responses under different URLs (a writer that shares them must keep the responses array consistent)
+        same = (200, [(b'Content-Type', [b'text/plain'])], b'same body')
+        out.append(bundle(ver, b'https://example.com/s1', None, None, [exch(b'https://example.com/s1', *same), exch(b'https://example.com/s2', *same), exch(b'https://example.com/s3', 200, [], b'other'), exch(b'https://example.com/s4', *same)]))
+        out.append(bundle(ver, b'https://example.com/e1', None, None, [exch(b'https://example.com/e1', 200, [], b''), exch(b'https://example.com/e2', 200, [], b'')]))
+        # a single representation that nevertheless carries Variants / Variant-Key headers (one and several possible keys)
+        for vh, vk in ((b'Accept-Language;en;fr', b'en'), (b'Accept-Language;en', b'en'), (b'Accept-Language;en;fr, Accept-Encoding;gzip;br', b'en;gzip'), (b'Accept-Language;en;fr', b'')):
+            hs = []
+            add(hs, b'variants', vh)
+            if vk: add(hs, b'variant-key', vk)
+            out.append(bundle(ver, b'https://example.com/one', None, None, [exch(b'https://example.com/one', 200, hs, b'only one'), exch(b'https://example.com/two', 200, [], b'2')]))
         # names equal after case folding with IDENTICAL values, alone and among other fields, two and three spellings
         for hs in ([(b'Content-Type', [b'text/html']), (b'content-type', [b'text/html'])],
                    [(b'A', [b'1']), (b'Content-Type', [b'text/html']), (b'content-type', [b'text/html']), (b'Z', [b'2'])],
